@@ -12,7 +12,7 @@ import json, os, re
 from vlib import Broken, read_ndjson, write_ndjson, validate_history_trace, parallel, tlc_vh_lines
 
 SPEC = "c06_flow_queue"
-IDS = ["r1", "r2", "r3", "r4", "r5", "r6", "r7", "r8", "r9"]
+IDS = ["r%d" % i for i in range(1, 13)]
 TICK_MS = 1000          # one model tick of a directed schedule = one wall-clock second (quota windows are whole seconds)
 SLACK_MS = 3000         # scheduling slack of the time predicate only (machine shared with other jobs)
 
@@ -257,12 +257,43 @@ def execute(ctx, binary, scenarios, tag, par=16):
     return out
 
 
+def project_processors(trace):
+    """a recording of an engine with two Queue processors -> one history per processor (bookkeeping, the judgement stays
+    with FlowQueueP, applied to each processor's own waiters): a request belongs to the flow it was sent to; a `pick`
+    (the yield points of the loops carry no processor name) belongs to the processor(s) whose requests that loop
+    goroutine ever consulted the quota for / admitted / pushed back; events without a request are common."""
+    flowof = {e["id"]: e["flow"] for e in trace if e["ev"] == "arrive" and "flow" in e}
+    gflows = {}
+    for e in trace:
+        if e["ev"] in ("quota", "grant", "requeue") and "g" in e and e.get("id") in flowof:
+            gflows.setdefault(e["g"], set()).add(flowof[e["id"]])
+    out = []
+    for f in sorted(set(flowof.values())):
+        for e in trace:
+            if e["ev"] == "reset":
+                out.append(dict(e, name="%s/%s" % (e.get("name", ""), f)))
+            elif "id" in e and e["id"] in flowof:
+                if flowof[e["id"]] == f:
+                    out.append(e)
+            elif e["ev"] in ("pick", "drain", "tick", "stopall_done"):
+                if f in gflows.get(e.get("g"), ()):
+                    out.append(e)
+            else:
+                out.append(dict(e))
+    return out
+
+
+def postprocess(sc, trace):
+    if sc["steps"] and sc["steps"][0]["op"] == "arbiter":
+        return reduce_rounds(trace)[0]
+    if sc["config"].get("flows") == 2:
+        return project_processors(trace)
+    return trace
+
+
 def execute_reduced(ctx, binary, scenarios, tag, par=16):
     traces = execute(ctx, binary, scenarios, tag, par)
-    for i, sc in enumerate(scenarios):
-        if sc["steps"] and sc["steps"][0]["op"] == "arbiter":
-            traces[i] = reduce_rounds(traces[i])[0]
-    return traces
+    return [postprocess(sc, t) for sc, t in zip(scenarios, traces)]
 
 
 def witness_of(hist, at, invariant):
@@ -612,6 +643,28 @@ def fault_scenario(k):
     return {"name": "fault-%d" % k, "config": {"ttl_s": 3, "queue_size": 4, "qmax": 1, "qwin_s": 1, "slack_ms": SLACK_MS}, "steps": steps}
 
 
+def twoflow_scenario(rng, k):
+    """two flows, each with its own Queue processor, on one quota id (even k) or on two (odd k); requests of distinct
+    priorities to both, interleaved, waiting on a small quota while both loops tick.  Each processor's own waiters are
+    judged on their own (priority / arrival order, its own queue_size); the quota's admissions are shared between them.
+    No request may be lost because the other processor's loop got hold of it (free-running)."""
+    ids = list(IDS)
+    n = rng.choice([5, 6])
+    # priorities interleaved between the two processors (a: 0 2 4 .., b: 1 3 5 .., or the other way round), arrivals shuffled.
+    # One admission per quota window; the burst arrives ~300 ms before a wall-clock second (= quota window) boundary, so the
+    # question "who is admitted next" is decided twice within a few loop ticks while most requests still wait.
+    steps = [{"op": "until", "ms": 550}]
+    first = rng.choice(["a", "b"])
+    reqs = [(first if i % 2 == 0 else ("b" if first == "a" else "a"), i) for i in range(2 * n)]
+    rng.shuffle(reqs)
+    for f, pr in reqs:
+        steps.append({"op": "arrive", "id": ids.pop(0), "prio": "p%d" % pr, "flow": f})
+        steps.append({"op": "sleep", "ms": rng.choice([2, 4])})        # arrivals in a definite order
+    steps.append({"op": "end"})
+    return {"name": "twoflow-%d" % k, "config": {"align": True, "ttl_s": 3, "queue_size": 6, "qmax": 1, "qwin_s": 1, "slack_ms": SLACK_MS,
+                                                 "flows": 2, "same_quota": k % 2 == 0}, "steps": steps}
+
+
 def refill_scenario(rng, k):
     """a history, not a single burst: some requests end by TTL expiry while the quota is exhausted, then more requests
     than the queue holds arrive at once - the size clause is judged after the slots were given back (free-running)."""
@@ -729,6 +782,9 @@ def run(ctx):
     for k in range(4 if not T else 12):
         scs.append(fault_scenario(k))
         names.append("fault-%d" % k)
+    for k in range(8 if not T else 24):
+        scs.append(twoflow_scenario(ctx.rng, k))
+        names.append("twoflow-%d" % k)
     for k in range(3 if not T else 9):
         scs.append(refill_scenario(ctx.rng, k))
         names.append("refill-%d" % k)
@@ -748,6 +804,8 @@ def run(ctx):
             traces[i], total, distinct = reduce_rounds(traces[i])
             narb += total
             ctx.cov["evaluations"] += total
+        elif n.startswith("twoflow"):
+            traces[i] = project_processors(traces[i])
     ctx.notes.append("arbiter rounds on the real Request object (two parties released at the same instant): %d" % narb)
     verdicts = judge(ctx, traces, "all")
     account(ctx, traces, verdicts, seen)
